@@ -171,3 +171,14 @@ claimed["C07"] = (
     "another packet / nothing: UPGRADE is the first packet on the new transport, old transport discarded once, later messages on the new one; failures and the timeout leave the original transport in place, the socket open and working.",
     "Outside the claim: the WebSocket/WebTransport handshakes, the real probe exchange, in-flight HTTP responses, reordering BETWEEN the two physical transports during the swap window, binary/text mix, client-side sends racing finishUpgradeTo.",
     "5 (C07)")
+
+claimed["C01"] = (
+    "Bounded symbolic execution of the frame-pipeline KERNEL in both directions (server->client and client->server): emit on a connected socket -> real sendBuffers / _sendBuffers -> real packet queue -> real "
+    "Engine.IO framing (websocket-like: every packet its own frame; polling-like: the real EncodePayloads/DecodePayloads with base64 for binary) -> the receiving connection's real onEIOPacket (parser mutex) -> real "
+    "routing by namespace -> real dispatch by event name (event handler store) -> handler call through the reflect model. Symbolic: event name choice (two names with handlers, one without; a same-named handler "
+    "in another namespace), 0..2 binary attachments of 0..2 SYMBOLIC bytes each (so the 0x1e record separator, 'b', digits are points of the solver's domain), framing mode, 1 (quick) / 1..2 (thorough) events. "
+    "Asserts: the event reaches exactly the peer's handler(s) registered for that name in that namespace, exactly once, with byte-identical attachments in their places; an event without handler reaches nobody; "
+    "no half-assembled packet stays in the decoder; the connection is not closed. The Socket.IO codec is a frame-preserving stand-in here: header/JSON are C09's subject, Engine.IO framing is C11's, the queue C02/C19's.",
+    "Outside the claim (structural for this family): argument trees through encoding/json and the reflect walk, sizes near 32 KiB / 64 KiB / MaxBufferSize and the transports' read limits (C13 decides the limit kernels it lists), "
+    "real transports and the polling->websocket upgrade in flight (C07 kernel), connection state recovery's emit branch, concurrent emitters (C02), 2..3 clients.",
+    "5 (C01)")
